@@ -10,6 +10,7 @@
 -/
 import GilVerif.Gen.C09
 import GilVerif.Model.C09Table
+import GilVerif.Model.C06
 
 namespace GilVerif.Model.C09
 open GilVerif.Gen.C09
@@ -135,6 +136,26 @@ def colorConvert (c1 c2 : Space) (s t : Depth) (p : List Int) : List Int :=
   | .rgba, .rgba => p.map (chConv s t)
   | .rgba, c => convNoAlpha .rgb c s t (premultiply s p)
   | c, d => convNoAlpha c d s t p
+
+/-! ### heterogeneous rgb pixels: channels of different depths (packed rgb565 / rgb332, bit-aligned references)
+
+  Every channel is converted with ITS OWN channel type: `channel_convert<color_element_type<P2, C>::type>` of C06's
+  converters (Model/C06.lean: packed_channel_value<n> <-> uint8_t / uint16_t / float32_t).  `ws` lists the channel widths in
+  semantic order (r, g, b). -/
+
+/-- default_color_converter_impl<gray_t, rgb_t> into a heterogeneous rgb pixel; `s` is .u8 or .u16 -/
+def grayToHet (s : C06.Ch) (ws : List Nat) (v : Int) : List Int := ws.map fun w => C06.conv s (.packed w) v
+
+/-- rgb8 -> heterogeneous rgb (same colour space: per-channel channel_convert) -/
+def rgb8ToHet (ws : List Nat) (p : List Int) : List Int := (ws.zip p).map fun (w, x) => C06.conv .u8 (.packed w) x
+
+/-- heterogeneous rgb -> rgb8 -/
+def hetToRgb8 (ws : List Nat) (p : List Int) : List Int := (ws.zip p).map fun (w, x) => C06.conv (.packed w) .u8 x
+
+/-- heterogeneous rgb -> gray8: the generic (float32) luminance, each channel normalised by its own maximum -/
+def hetToGray8 (ws : List Nat) (p : List Int) : List Int :=
+  let f (i : Nat) : Float32 := f32 (C06.conv (.packed (ws.getD i 1)) .f32 (p.getD i 0))
+  [C06.conv .f32 .u8 (bitsOf (f 0 * 0.30 + f 1 * 0.59 + f 2 * 0.11))]
 
 /-! ### Spec helpers (the clauses are assembled in the driver's `judge`) -/
 
